@@ -182,7 +182,7 @@ func main() {
 	cov["evaluations"] = inst.Evaluations + seq.Evaluations + conc.Evaluations + race.Evaluations
 	cov["seq_workers"] = seqWorkers
 	cov["distinct_nontrivial"] = len(cl)
-	cov["rule"] = "seq: every history up to the bound over the call alphabet is executed on a fresh real MemIdm (one transition = one replayed history + one call + the full state check; evaluations = transitions + the lookups of the state checks, i.e. every real call whose outcome was compared with the model); " +
+	cov["rule"] = "seq: every history up to the bound over the call alphabet is executed on a fresh real MemIdm (one transition = one replayed history + one call + the full state check, which asks every name, every id in range and the accessors AdminUser/AdminGroup; evaluations = transitions + the lookups of the state checks, i.e. every real call whose outcome was compared with the model); " +
 		"a case class is (method, class of each operand in the model state before the call: admin / admin-name readded / absent / live / live with gid 0 / retired id / never used id, error type returned); " +
 		"inst: the same on histories whose letters address one of several live identity managers or create another one; every instance is checked after every letter (one transition = one replayed history + one letter + the full state check of every instance); " +
 		"distinct_nontrivial counts the distinct classes observed, listed in outcome_classes"
